@@ -337,7 +337,7 @@ func guardedStep(st *hstate, f []string) []string {
 	select {
 	case r := <-ch:
 		return r
-	case <-time.After(20 * time.Second):
+	case <-time.After(90 * time.Second):
 		st.dead = true
 		st.log = nil
 		return []string{"err Hang"}
@@ -630,6 +630,32 @@ func step(st *hstate, f []string) []string {
 				if int(k) < len(segs) {
 					_ = os.Remove(segs[k].Index)
 				}
+			}
+		}
+		return []string{"ok"}
+	case "idxcut":
+		// the newest index file loses its last k items (never its header): a crash that lost the tail of the index
+		segs := listSegs(st.dir)
+		if len(segs) > 0 {
+			ix := segs[len(segs)-1].Index
+			if b, err := os.ReadFile(ix); err == nil {
+				hdr := 0
+				if len(b) >= 6 && string(b[:6]) == "\xffklevi" {
+					hdr = 8
+				}
+				isz := 16
+				if st.times {
+					isz += 8
+				}
+				if st.keys {
+					isz += 8
+				}
+				n := (len(b) - hdr) / isz
+				k := int(atoi(f[1]))
+				if k > n {
+					k = n
+				}
+				_ = os.Truncate(ix, int64(hdr+(n-k)*isz))
 			}
 		}
 		return []string{"ok"}
